@@ -134,6 +134,25 @@ theorem from_coo_cost_bound (x : COO α) (c : Nat) (hd : 1 ≤ x.shape.length) :
   have := getD_le_lsum x.shape c
   simp only [COO.gather, List.map_cons, List.map_nil, prod, Nat.mul_one, Nat.add_mul, Nat.mul_add, Nat.one_mul]; omega
 
+/-- **dot_csr_csr_cost_bound.** K = 5: the sparse–sparse product kernels `_dot_csr_csr` / `_dot_coo_coo` for an
+`nRow × nCol` result with `nnzOut` stored elements and `work` (a-entry, b-entry) products write at most
+`5 · (nnzOut + work + nRow + nCol + 2)` cells — no term in `nRow · nCol` (the scratch arrays `next_`/`sums` are allocated
+once and restored entry by entry). -/
+theorem dot_csr_csr_cost_bound (nRow nCol nnzOut work : Nat) :
+    Cost.dotCsrCsr nRow nCol nnzOut work ≤ 5 * (nnzOut + work + nRow + nCol + 2) := by
+  unfold Cost.dotCsrCsr; omega
+
+/-- the full statement for the sparse–sparse product kernels: linear in stored elements out, products and the frame -/
+def Statement_dot_csr_csr : Prop :=
+  ∃ K : Nat, ∀ nRow nCol nnzOut work : Nat, Cost.dotCsrCsr nRow nCol nnzOut work ≤ K * (nnzOut + work + nRow + nCol + 2)
+
+/-- **statement_dot_csr_csr.** The full statement holds (it was false of the code before the per-row reset
+`next_[:] = -1` was removed: two empty `m × m` operands cost more than `m²`). -/
+theorem statement_dot_csr_csr : Statement_dot_csr_csr := ⟨5, dot_csr_csr_cost_bound⟩
+
+/-- two `(10^6)^2` operands, 400 stored elements in the result, 500 products: 4 004 001 cells (`10^12` more before the repair) -/
+example : Cost.dotCsrCsr 1000000 1000000 400 500 = 4004001 := by decide
+
 /-! ## the bundle -/
 
 /-- one call of a modelled operation, with the sizes the cost depends on (results `r`, group counts `g`, survivors `m`
@@ -155,6 +174,7 @@ inductive Op where
   | diagonal (x : COO Int) (s : Nat)
   | tocoo (g : GCXS Int)
   | fromCoo1 (x : COO Int) (c : Nat)
+  | dotCsrCsr (nRow nCol nnzOut work : Nat)
 
 namespace Op
 /-- cells written -/
@@ -175,7 +195,8 @@ def cost : Op → Nat
   | diagonal x s => Cost.diagonal x s
   | tocoo g => Cost.tocoo g
   | fromCoo1 x c => Cost.fromCoo x [c]
-/-- stored cells in and out + Σ shape + ndim -/
+  | dotCsrCsr r c n w => Cost.dotCsrCsr r c n w
+/-- stored cells in and out + Σ shape + ndim (products: stored elements out + products + rows + columns) -/
 def size : Op → Nat
   | transpose x a => x.cells + (x.transposeCore a).cells + x.frame
   | reshape x s => x.cells + (x.reshapeCore s).cells + x.frame
@@ -193,11 +214,12 @@ def size : Op → Nat
   | diagonal x _ => x.cells + x.frame
   | tocoo g => (g.shape.length + 1) * g.data.length
   | fromCoo1 x _ => x.cells + x.frame
+  | dotCsrCsr r c n w => n + w + r + c + 2
 /-- the explicit constant of each operation -/
 def K : Op → Nat
   | transpose .. => 4 | reshape .. => 1 | flip .. => 10 | roll .. => 6 | squeeze .. => 1 | expandDims .. => 1
   | getitem .. => 5 | elemwise1 .. => 2 | elemwise2 .. => 7 | reduce .. => 20 | concat .. => 6 | stack .. => 8
-  | tri .. => 1 | diagonal .. => 12 | tocoo .. => 21 | fromCoo1 .. => 7
+  | tri .. => 1 | diagonal .. => 12 | tocoo .. => 21 | fromCoo1 .. => 7 | dotCsrCsr .. => 5
 /-- what argument validation and the model guarantee about the sizes -/
 def Admissible : Op → Prop
   | flip x a => a.length ≤ x.shape.length
@@ -230,6 +252,7 @@ theorem opCost_sparse_bound (o : Op) (h : o.Admissible) : o.cost ≤ o.K * o.siz
   | diagonal x s => exact diagonal_cost_bound x s h
   | tocoo g => exact tocoo_cost_bound g
   | fromCoo1 x c => exact from_coo_cost_bound x c h
+  | dotCsrCsr r c n w => exact dot_csr_csr_cost_bound r c n w
 
 /-! ## where the bound is false of the code -/
 
@@ -254,28 +277,6 @@ theorem not_Statement_from_coo_any_axes : ¬ Statement_from_coo_any_axes := by
   have := h (gcxsWitness (2 * K + 5)) [0, 1] (by simp [gcxsWitness])
   have := from_coo_counterexample_family K
   omega
-
-/-- the full statement for the sparse–sparse product kernels -/
-def Statement_dot_csr_csr : Prop :=
-  ∃ K : Nat, ∀ nRow nCol nnzOut work : Nat, Cost.dotCsrCsr nRow nCol nnzOut work ≤ K * (nnzOut + work + nRow + nCol + 2)
-
-/-- **dot_csr_csr_counterexample_family.** `_dot_csr_csr` / `_dot_coo_coo` reset `next_[:] = -1` once per result row:
-two EMPTY `m × m` operands cost more than `m²`. -/
-theorem dot_csr_csr_counterexample_family (K : Nat) :
-    Cost.dotCsrCsr (2 * K + 3) (2 * K + 3) 0 0 > K * (0 + 0 + (2 * K + 3) + (2 * K + 3) + 2) := by
-  unfold Cost.dotCsrCsr
-  grind
-
-theorem not_Statement_dot_csr_csr : ¬ Statement_dot_csr_csr := by
-  rintro ⟨K, h⟩
-  have := h (2 * K + 3) (2 * K + 3) 0 0
-  have := dot_csr_csr_counterexample_family K
-  omega
-
-/-- **dot_csr_csr_partial.** everything except the per-row reset is linear -/
-theorem dot_csr_csr_partial (nRow nCol nnzOut work : Nat) :
-    Cost.dotCsrCsr nRow nCol nnzOut work ≤ 3 * (nnzOut + work + nRow + nCol + 2) + nRow * nCol := by
-  unfold Cost.dotCsrCsr; omega
 
 /-- the full statement for indexing with an integer array of length `L` -/
 def Statement_getitem_adv_linear : Prop :=
